@@ -179,6 +179,13 @@ type textProgressBar struct {
 
 func newTextProgressBar(writer io.Writer, columns int32, tmuxPaneColumns int32,
 	tmuxPrefix, colorPair string) *textProgressBar {
+	const maxColumns = 1 << 12 // the pane width comes from the peer: never render (and allocate) wider than any terminal
+	if tmuxPaneColumns > maxColumns {
+		tmuxPaneColumns = maxColumns
+	}
+	if columns > maxColumns {
+		columns = maxColumns
+	}
 	if tmuxPaneColumns > 1 {
 		columns = tmuxPaneColumns - 1 //  -1 to avoid messing up the tmux pane
 	}
